@@ -1405,12 +1405,22 @@ impl FdlActiveStation {
 
             // Only check and transition to ActiveIdle on the first telegram.
             if first_in {
-                if telegram.source_address() != Some(self.token_ring.next_station()) {
-                    log::warn!(
-                        "Unexpected station #{} transmitting after token pass to #{}",
-                        telegram.source_address().unwrap(),
-                        self.token_ring.next_station()
-                    );
+                match telegram.source_address() {
+                    Some(source) if source != self.token_ring.next_station() => {
+                        log::warn!(
+                            "Unexpected station #{} transmitting after token pass to #{}",
+                            source,
+                            self.token_ring.next_station()
+                        );
+                    }
+                    Some(_) => (),
+                    // A short confirmation does not carry a source address.
+                    None => {
+                        log::warn!(
+                            "Unexpected short confirmation after token pass to #{}",
+                            self.token_ring.next_station()
+                        );
+                    }
                 }
 
                 // In case this was a telegram to us, we must already handle it in ActiveIdle state
